@@ -11,6 +11,7 @@ import NetqasmVerif.Driver.Text
 import NetqasmVerif.Driver.Transpile
 import NetqasmVerif.Driver.Exec
 import NetqasmVerif.Driver.Epr
+import NetqasmVerif.Driver.Controller
 import NetqasmVerif.Driver.Asm
 import NetqasmVerif.Driver.Sdk
 open Lean NQ.Drv
@@ -29,6 +30,7 @@ def handlers : List (String → Json → Option Json) := [
   handleTranspile,
   handleExec,
   handleEpr,
+  handleCtl,
   handleAsm,
   handleSdk,
   handleSdkSem]
